@@ -38,7 +38,7 @@ Definition w_free_right : expr := Add (Add (Leaf 0 false) (Leaf 1 false)) (Free 
 Example w_free_right_now :
   eval cfg_now w_free_right = VComb KPlain [IPlain 0 false; IPlain 1 false; IIdx 2 false 0; IIdx 3 false 1].
 Proof. vm_compute. reflexivity. Qed.
-Lemma free_right_refuted : exists e, eval cfg_fixed e <> spec_struct e.
+Lemma free_right_refuted : exists e, eval cfg_now e <> spec_struct e.
 Proof. exists w_free_right. vm_compute. discriminate. Qed.
 Example w_free_left_raises : eval cfg_now (Add (Free (Add (Leaf 2 false) (Leaf 3 false))) (Leaf 0 false)) = VErr.
 Proof. vm_compute. reflexivity. Qed.
@@ -121,17 +121,17 @@ Example w_free_classes : classes (modify_free [1; 9] 3 [0; 1; 0]) = [[0; 1; 0]; 
 Proof. vm_compute. reflexivity. Qed.
 Example w_free_formula : length (free_in [1; 9] [0; 1; 0]) * 3 + length (shared_in [1; 9] [0; 1; 0]) = 4.
 Proof. vm_compute. reflexivity. Qed.
-(* /repo today: free parameters over a sum whose first analysis has its own model [3;1;4] drop that model *)
+(* before 1298d8e free parameters over a sum whose first analysis has its own model [3;1;4] dropped that model *)
 Definition w_free_own_items := [IIdx 0 true 0; IIdx 1 false 1].
-Example w_free_own_now :
-  fitted_models cfg_now KFree w_free_own_items [0; 1; 2] [[3; 1; 4]] [1]
+Example w_free_own_round1 :
+  fitted_models cfg_round1 KFree w_free_own_items [0; 1; 2] [[3; 1; 4]] [1]
   = [[Orig 0; Fresh 0 1; Orig 2]; [Orig 0; Fresh 1 1; Orig 2]].
 Proof. vm_compute. reflexivity. Qed.
-Example w_free_own_repaired :
-  fitted_models cfg_fixed KFree w_free_own_items [0; 1; 2] [[3; 1; 4]] [1]
+Example w_free_own_now :
+  fitted_models cfg_now KFree w_free_own_items [0; 1; 2] [[3; 1; 4]] [1]
   = [[Orig 3; Fresh 0 1; Orig 4]; [Orig 0; Fresh 1 1; Orig 2]].
 Proof. vm_compute. reflexivity. Qed.
-Lemma free_own_refuted :
+Lemma free_own_legacy_refuted :
   exists its default own free,
-    fitted_models cfg_now KFree its default own free <> modify_free_own free default own its.
+    fitted_models cfg_round1 KFree its default own free <> modify_free_own free default own its.
 Proof. exists w_free_own_items, [0; 1; 2], [[3; 1; 4]], [1]. vm_compute. discriminate. Qed.
